@@ -35,6 +35,7 @@ import Proofs.ResolverStaticCheck
 import Proofs.ResolverStaticMapCheck
 import Proofs.ResolverStaticMapGCheck
 import Proofs.ResolverStaticTreeCheck
+import Proofs.ResolverStaticEvalR
 import Proofs.ResolverStaticExample
 
 namespace Props.C01
@@ -124,11 +125,9 @@ element-wise, typed-map literals value-wise, struct literals by member
 selection, references by path extension) denotes the projection of its value.
 Longer paths follow by iteration (`projPath` is the iteration of `proj1`).
 
-Excluded shape (not modelled): expressions that only exist after static
-resolution — references carrying fork indices (`RefExp.Forks`), `MergeExp`,
-`DisabledExp` and nested `SplitExp` — i.e. the fork-index substitution for
-references to mapped calls; for those the static phase is checked only
-end-to-end by the per-run comparison with `den`.
+Excluded shape: expressions that only exist after static resolution — references carrying
+fork indices (`RefExp.Forks`), `MergeExp`, `DisabledExp` and nested `SplitExp`; those are covered
+by `bindingPath_sound_forks` (resolved expressions).
 -/
 theorem bindingPath_sound_partial (st : StructTable) (env : Env) (f : String) (e : Exp) (t : Ty)
     (h : wt st env t e = true) :
@@ -141,9 +140,13 @@ current fork of a mapped call, `merge` = the collection over all forks of a
 mapped call, array and typed-map mode): `bpR` pushes the projection inside
 `split` and `merge` (`SplitExp.BindingPath`, `MergeExp.BindingPath`) and the
 result denotes the projection of the value, for every fork assignment.
-Not modelled: `DisabledExp`, and the choice of the `ForkNode` a run-time merge
-enumerates its forks from (F14 / F32 / F33 live there: they are found by the
-per-run comparison with `den`, not by this law). -/
+`DisabledExp` and `fork` annotations are covered too (`RExp.disabled`, `RExp.fork`).  This is a
+law of the UNTYPED evaluation `evalR`; the typed evaluation `evalRT` used by the refinement is
+`narrow ∘ evalR` on well-typed expressions (`runtime_typed_is_narrowed_untyped`), and its typed
+form is `static_projection_typed`.  Not modelled: the choice of the `ForkNode` a run-time merge
+enumerates its forks from (F14 / F32 / F33 live there: they are found by the per-run comparison
+with `den`, not by this law); the merge index sets `ρ.idx` are a free component of the store here
+(the stores the driver builds have none: the driver's programs contain no `merge` node). -/
 theorem bindingPath_sound_forks (st : StructTable) (ρ : Store) (fld : String) (e : RExp) (t : Ty)
     (f : ForkAssign) (h : wtR st t e = true) :
     evalR st ρ f (bpR fld e) = proj1 t fld (evalR st ρ f e) :=
@@ -420,7 +423,11 @@ theorem narrowFix_acyclic (P : Program) (h : acyclicB P.table = true) : NarrowFi
   narrowFix_of_acyclicB P.table h
 
 /-- The static struct filter of literals (`Exp.filter`) is invisible to the type-directed
-run-time evaluation (`TopNode.resolve`), and keeps the expression well typed. -/
+run-time evaluation (`TopNode.resolve`), and keeps the expression well typed.  Domain of the
+three typed laws (`HasTyR`): literals, array / typed-map / struct literals, references, `fork`
+annotations and ARRAY-mode `split` nodes; `merge`, `disabled` and typed-map-mode `split` nodes are
+NOT in `HasTyR` (for them only the untyped laws `bindingPath_sound_forks`, `split_merge_cancel*`,
+`makeDisabled_sound` hold, and only the per-run tie relates the typed evaluation to the code). -/
 theorem static_filter_invisible (st : StructTable) (hst : StructsOk st) (nf : Nat) (ρ : Store)
     (f : ForkAssign) (r : RExp) (t : Ty) (h : HasTyR st t r) :
     evalRT st nf ρ f t (filterR st t r) = evalRT st nf ρ f t r ∧ HasTyR st t (filterR st t r) :=
@@ -467,6 +474,15 @@ resolved outputs of the top node) followed by the RUN-TIME phase (`evalRT`:
 type-directed evaluation over the recorded outs) yields exactly `den`: the same
 top-level outputs, the same stage instances in the same order, each with the same
 argument record.
+
+About `StoreOf nm O ρ` (audit M-2): it quantifies over ALL call paths, so it demands that the oracle
+does not distinguish two paths with the same name.  For an injective `nm` that is no restriction;
+for the "."-join used by the examples and the driver it holds for oracles given by node NAME
+(`exPlainOracleN`, full example below) but not for `exPlainOracle`, which distinguishes
+["TOP","GEN"] from ["TOP.GEN"].  The node-wise hypothesis `StoreAtNode` of
+`resolver_refines_den_staticmap_*` / `_mapstatic_*` / `_mappedpipes_*` (which cover plain programs
+as well, are what the driver replays, and whose store `storeOfNodes` is proved to satisfy it) has no
+such side effect.
 
 Full statement (NOT proved): the same for every compiling program, `twoPhase`
 extended by split / merge wrapping of map calls, fork matching and `DisabledExp`
@@ -665,6 +681,17 @@ example :
       (fun i => i.args.matches (.obj [("x", .atom "5"), ("p", .obj [("a", .atom "1"), ("b", .atom "\"s\"")]),
         ("k", .atom "3")])) = some true := by decide
 
+/-- FULL non-vacuity of `resolver_refines_den_plain_checked`: all three hypotheses at once, for the
+"."-join naming and the oracle given by node name -/
+example : wellTypedB exPlain = true ∧ acyclicB exPlain.table = true ∧
+    StoreOf exNm exPlainOracleN exPlainStoreN :=
+  ⟨by decide, by decide, fun _ _ => rfl⟩
+
+/-- … hence (by the theorem, no evaluation) den = the two phases on that oracle -/
+example : den exPlain exPlainOracleN = twoPhase exPlain exNm exPlainStoreN :=
+  resolver_refines_den_plain_checked exPlain exNm exPlainOracleN exPlainStoreN (by decide) (by decide)
+    (fun _ _ => rfl)
+
 /-- non-vacuity: a nested, aliased program with struct narrowing WIDE → PAIR across the
 pipeline boundary, projections through the boundary, struct / array literals mixing
 references and constants passes both checks -/
@@ -728,6 +755,33 @@ theorem join_complete_or_failed (reads : List (Option J)) :
 /-- non-vacuity: three chunks, the middle one unreadable: not launched; all readable: the list -/
 example : (doJoinRead [some (.atom "1"), none, some (.atom "3")]).2 = false ∧
     doJoinRead [some (.atom "1"), some (.atom "2")] = (.arr [.atom "1", .atom "2"], true) := ⟨rfl, rfl⟩
+
+/-- The TYPED run-time evaluation (`evalRT`: what the refinement theorems and the driver use) is the
+UNTYPED evaluation (`evalR`: what the split / merge / projection kernel laws are stated in)
+followed by narrowing to the type — on every well-typed resolved expression (`HasTyR`: literals,
+array / typed-map / struct literals, references, `fork`, array-mode `split`).  (audit M-5) -/
+theorem runtime_typed_is_narrowed_untyped (st : StructTable) (hst : StructsOk st) (F : Nat)
+    (hF : NarrowFix st F) (ρ : Store) (r : RExp) (t : Ty) (f : ForkAssign) (h : HasTyR st t r) :
+    evalRT st F ρ f t r = narrow st F t (evalR st ρ f r) :=
+  evalRT_eq_narrow_evalR st hst F hF ρ r t f h
+
+/-- non-vacuity of `split_merge_cancel` / `_keys`: a hand-made store whose merge index sets are
+what the hypotheses ask for (audit M-5: the stores of the driver have none) -/
+example : ∃ ρ : Store, ∀ f, ρ.idx "C" (fset f "C" (.i 1)) = (List.range 3).map .i :=
+  ⟨⟨fun _ _ => .null, fun _ _ => (List.range 3).map .i⟩, fun _ => rfl⟩
+
+example : ∃ ρ : Store, ∀ f, ρ.idx "C" (fset f "C" (.k "b")) = ["a", "b"].map .k ∧ ["a", "b"].Nodup :=
+  ⟨⟨fun _ _ => .null, fun _ _ => ["a", "b"].map .k⟩, fun _ => ⟨rfl, by decide⟩⟩
+
+/-- den does not depend on the call-depth fuel for programs whose call graph is acyclic
+(`callGraphAcyclicB`: decidable, evaluated by the driver): more fuel than `Program.fuel` changes
+nothing, so `den` is a specification and not an artefact of the cut-off.  (audit M-6; recursive
+programs — rejected by the compiler — pass `wellTypedB` and are excluded by this check.) -/
+theorem den_fuel_independent_checked (P : Program) (O : Oracle) (h : callGraphAcyclicB P = true) (k : Nat) :
+    runCallable P O P.nfuel (P.fuel + k) P.top.callee [P.top.id] [] P.topArgs = den P O :=
+  den_fuel_independent P O _ (callRankOk_of_B P h).1 (callRankOk_of_B P h).2 k
+
+example : callGraphAcyclicB exPlain = true ∧ callGraphAcyclicB exPipe = true := by decide
 
 /-! ### definitional unfoldings (documentation of the model, not guarantees) -/
 
